@@ -24,7 +24,11 @@ LEVEL_TEXT = ("Proof (F/M): for every sequence of keyless writer Insert/Delete/U
 LEVEL_NOTE = ("Trusted: Coq kernel, Go harness (SQL script runner), Python glue. Section hypothesis: the row hash (xxh3-128 of the value fields) is injective on "
               "the rows of a history. Modelled, not verified: the SQL engine's expansion of a statement into per-copy writer calls (derived from the "
               "previously observed state), secondary index maintenance (observed through a lookup), DELETE ... LIMIT n (the engine chooses which matching copies go; the oracle demands exactly min(n, matching) copies "
-              "removed from matching rows only, and the writer calls are read off the observed change); UPDATE ... LIMIT is not generated. "
+              "removed from matching rows only, and the writer calls are read off the observed change); UPDATE ... LIMIT n likewise (exactly min(n, matching) matching copies are picked, the changed ones move to their image). The secondary "
+              "index on the first (nullable) column is modelled by its entry set (indexed value, hash id) with the writer's rules (entry removed only when the "
+              "cardinality read before the primary delete is <= 1); index_mirrors_store / index_entry_iff_present prove for every writer-op sequence that an entry "
+              "is present exactly when the row's multiplicity is positive; after every statement every value of the indexed column, NULL included, is counted "
+              "through the index and must equal the scan's multiplicities. "
               "Equal changes: dolt records a conflict also when both sides change a row's multiplicity in the SAME way (MaybeShortCircuit: 'For keyless "
               "tables, this counts as a conflict'; computeProllyTreePatches records convergent keyless edits as conflicts). Decision: the property text "
               "permits this. It says a conflict is reported WHEN the changes differ (a sufficient condition; C29's text, by contrast, says 'exactly when'), "
@@ -36,12 +40,14 @@ LEVEL_NOTE = ("Trusted: Coq kernel, Go harness (SQL script runner), Python glue.
               "direction is a violation. oracle_on_model: proved for the merge conjuncts (merge_oracle_on_model); the statement-by-statement "
               "conjunct is not yet proved (oracle_on_model_partial says what is missing).")
 THEOREMS = ["keyless_refines_multiset", "positive_run", "keyless_merge_spec", "merge_card_deltas", "merge_card_conflict_iff", "kmerge_get", "kmerge_conflict_iff",
-            "kmerge_conflict_entry", "merge_oracle_on_model", "oracle_on_model_partial"]
+            "kmerge_conflict_entry", "merge_oracle_on_model", "oracle_on_model_partial",
+            "index_mirrors_store", "index_entry_iff_present"]
 RULE = ("keyless tables with 2-3 nullable int/varchar columns over tiny value domains (duplicates are the norm), optional secondary index on the first "
-        "column; 2-9 statements (INSERT of 1-3 copies, DELETE/UPDATE with a null-safe equality predicate, DELETE ... LIMIT n) observed one by one; then two branches of 0-4 "
+        "column; 2-9 statements (INSERT of 1-3 copies, DELETE/UPDATE with a null-safe equality predicate, DELETE/UPDATE ... LIMIT n, directed pairs that duplicate a row and then remove or NULL one copy) observed one by one; then two branches of 0-4 "
         "statements each, merged in both directions; non-trivial = some row reaches multiplicity >= 2; distinct by script text")
-ASSUMPTIONS = ["predicates are null-safe equalities on one column; UPDATE assigns one column a constant; LIMIT only on DELETE"]
-REQUIRED_TAGS = ["duplicates", "delete-many", "delete-limit", "delete-limit-partial", "update-merge-rows", "with-index", "merge-conflict", "merge-clean", "equal-change-conflict", "one-sided-delta", "card-to-zero"]
+ASSUMPTIONS = ["predicates are null-safe equalities on one column; UPDATE assigns one column a constant"]
+REQUIRED_TAGS = ["duplicates", "delete-many", "delete-limit", "delete-limit-partial", "update-limit",
+                 "keyless-index-2to1-partial-delete", "keyless-index-null-after-partial-update", "update-merge-rows", "with-index", "merge-conflict", "merge-clean", "equal-change-conflict", "one-sided-delta", "card-to-zero"]
 
 INTS = [0, 1, 2]
 STRS = ["a", "b"]
@@ -67,21 +73,49 @@ def gen_stmt(rng, cols):
     if x < 0.78:
         n = rng.choice([1, 1, 2, 3])
         return {"k": "dell", "sql": "delete from t where %s <=> %s limit %d" % (names[ci], v, n), "ci": ci, "v": v, "n": n}
-    cj = rng.randrange(len(cols))
-    w = lit(cols[cj][1], rng)
-    return {"k": "upd", "sql": "update t set %s = %s where %s <=> %s" % (names[cj], w, names[ci], v), "ci": ci, "v": v, "cj": cj, "w": w}
+    cj = rng.randrange(len(cols)) if rng.random() < 0.6 else 0
+    w = lit(cols[cj][1], rng, 0.35 if cj == 0 else 0.15)
+    if x < 0.9:
+        return {"k": "upd", "sql": "update t set %s = %s where %s <=> %s" % (names[cj], w, names[ci], v), "ci": ci, "v": v, "cj": cj, "w": w}
+    n = rng.choice([1, 1, 2])
+    return {"k": "updl", "sql": "update t set %s = %s where %s <=> %s limit %d" % (names[cj], w, names[ci], v, n),
+            "ci": ci, "v": v, "cj": cj, "w": w, "n": n}
+
+
+def directed(rng, cols):
+    """a duplicated row followed by a statement that removes / changes ONE of its copies (the index entry must stay, resp. a
+    NULL must reach the index while another copy keeps the old entry)"""
+    vals = [lit(t, rng, 0.0) for _, t in cols]
+    row = "(%s)" % ", ".join(vals)
+    n = rng.choice([2, 2, 3])
+    out = [{"k": "ins", "sql": "insert into t values %s" % ", ".join([row] * n), "row": row, "n": n}]
+    ci = rng.randrange(len(cols))
+    names = [c for c, _ in cols]
+    if rng.random() < 0.5:
+        out.append({"k": "dell", "sql": "delete from t where %s <=> %s limit 1" % (names[ci], vals[ci]), "ci": ci, "v": vals[ci], "n": 1})
+    else:
+        ci = rng.randrange(1, len(cols))
+        out.append({"k": "updl", "sql": "update t set c0 = NULL where %s <=> %s limit 1" % (names[ci], vals[ci]),
+                    "ci": ci, "v": vals[ci], "cj": 0, "w": "NULL", "n": 1})
+    return out
 
 
 def gen_one(rng):
     ncol = rng.choice([2, 2, 3])
     cols = [("c0", "int")] + [("c%d" % i, "int" if rng.random() < 0.6 else "str") for i in range(1, ncol)]
     index = rng.random() < 0.5
-    base = [gen_stmt(rng, cols) for _ in range(rng.randint(2, 9))]
+    base = [gen_stmt(rng, cols) for _ in range(rng.randint(2, 8))]
+    for _ in range(rng.choice([0, 1, 1, 2])):
+        i = rng.randint(0, len(base))
+        base[i:i] = directed(rng, cols)
     l = [gen_stmt(rng, cols) for _ in range(rng.randint(0, 4))]
     r = [gen_stmt(rng, cols) for _ in range(rng.randint(0, 4))]
     if l and rng.random() < 0.3:
         r.insert(rng.randint(0, len(r)), copy.deepcopy(rng.choice(l)))
-    return {"cols": cols, "index": index, "base": base, "l": l, "r": r, "probes": [rng.choice(INTS) for _ in base]}
+    return {"cols": cols, "index": index, "base": base, "l": l, "r": r}
+
+
+PROBES = [str(v) for v in INTS] + ["NULL"]
 
 
 def fixed_cases():
@@ -97,7 +131,7 @@ def fixed_cases():
              "l": [ins(1, 1, 1), ins(4, 4, 1), {"k": "del", "sql": "delete from t where c0 <=> 5", "ci": 0, "v": "5"}, ins(7, 7, 1)],
              "r": [ins(1, 1, 1), {"k": "del", "sql": "delete from t where c0 <=> 2", "ci": 0, "v": "2"},
                    {"k": "del", "sql": "delete from t where c0 <=> 5", "ci": 0, "v": "5"}, ins(8, 8, 2)],
-             "probes": [1] * 8}]
+             }]
 
 
 def gen_cases(rng, tier):
@@ -123,7 +157,9 @@ def with_steps(c):
         q(st["sql"], "E%d" % i)
         q(grp, "S%d" % i)
         q("select count(*) from t", "C%d" % i)
-        q("select count(*) from t where c0 = %d" % c["probes"][i], "X%d" % i)
+        for j, pv in enumerate(PROBES):
+            # every value of the indexed column, NULL included, is looked up (through the index when there is one)
+            q("select count(*) from t where c0 %s" % ("is null" if pv == "NULL" else "= " + pv), "X%d_%d" % (i, j))
         q("select * from t", "A%d" % i)
     q("call dolt_commit('-Am','base')")
     q(grp, "B")
@@ -166,7 +202,7 @@ def parse(case, out):
     d = {"steps": []}
     prev = []
     for i, st in enumerate(case["base"]):
-        ks = ["E%d" % i, "S%d" % i, "C%d" % i, "X%d" % i, "A%d" % i]
+        ks = ["E%d" % i, "S%d" % i, "C%d" % i, "A%d" % i] + ["X%d_%d" % (i, j) for j in range(len(PROBES))]
         if any(k not in o for k in ks) or any(o[k]["err"] for k in ks):
             return None
         new = state(o["S%d" % i], ncol)
@@ -180,6 +216,16 @@ def parse(case, out):
             if st["k"] == "del":
                 stmt = ("del", st["ci"], v)
                 ops = [("Del", r) for r, c in match for _ in range(c)]
+            elif st["k"] == "updl":
+                w = litval(st["w"])
+                stmt = ("updl", st["ci"], v, st["cj"], w, st["n"])
+                nd = {tuple(r): c for r, c in new}
+                ops = []
+                for r, c in match:
+                    nr = list(r)
+                    nr[st["cj"]] = w
+                    if nr != r:
+                        ops += [("Upd", r, nr)] * max(0, c - nd.get(tuple(r), 0))
             elif st["k"] == "dell":
                 # which copies a LIMIT hits is the engine's choice: the writer calls are read off the observed change
                 stmt = ("dell", st["ci"], v, st["n"])
@@ -194,8 +240,9 @@ def parse(case, out):
                     nr[st["cj"]] = w
                     if nr != r:
                         ops += [("Upd", r, nr)] * c
-        d["steps"].append({"stmt": stmt, "ops": ops, "probe": case["probes"][i], "state": new,
-                           "count": g.val(o["C%d" % i]["rows"][0][0]), "ix": g.val(o["X%d" % i]["rows"][0][0]),
+        d["steps"].append({"stmt": stmt, "ops": ops, "state": new, "prev": prev,
+                           "count": g.val(o["C%d" % i]["rows"][0][0]),
+                           "ix": [g.val(o["X%d_%d" % (i, j)]["rows"][0][0]) for j in range(len(PROBES))],
                            "scan": len(o["A%d" % i]["rows"])})
         prev = new
     for k in ("B", "L", "R"):
@@ -239,6 +286,8 @@ def cq_stmt(s):
         return "(SDel %d %s)" % (s[1], g.cq_cell(s[2]))
     if s[0] == "dell":
         return "(SDelL %d %s %d)" % (s[1], g.cq_cell(s[2]), s[3])
+    if s[0] == "updl":
+        return "(SUpdL %d %s %d %s %d)" % (s[1], g.cq_cell(s[2]), s[3], g.cq_cell(s[4]), s[5])
     return "(SUpd %d %s %d %s)" % (s[1], g.cq_cell(s[2]), s[3], g.cq_cell(s[4]))
 
 
@@ -256,13 +305,14 @@ def cq_mobs(m):
 def coq_case(case, out):
     d = parse(case, out)
     if d is None:
-        return ("({| i_steps := []; i_b := []; i_l := []; i_r := [] |}, {| o_steps := [{| so_state := []; so_count := 9; so_ix := 9 |}]; "
+        return ("({| i_steps := []; i_probes := []; i_b := []; i_l := []; i_r := [] |}, {| o_steps := [{| so_state := []; so_count := 9; so_ix := [9] |}]; "
                 "o_lr := {| mo_class := 7; mo_state := []; mo_conf := [] |}; o_rl := {| mo_class := 7; mo_state := []; mo_conf := [] |} |})")
-    steps = cq_list("(%s, %s, %s)" % (cq_stmt(s["stmt"]), cq_list(cq_op(o) for o in s["ops"]), g.cq_cell(s["probe"])) for s in d["steps"])
+    steps = cq_list("(%s, %s)" % (cq_stmt(s["stmt"]), cq_list(cq_op(o) for o in s["ops"])) for s in d["steps"])
     # COUNT(*) and the number of rows SELECT * emits must agree; a disagreement is encoded as an impossible count
-    sobs = cq_list("{| so_state := %s; so_count := %d; so_ix := %d |}" % (
-        cq_state(s["state"]), s["count"] if s["count"] == s["scan"] else 999999, s["ix"]) for s in d["steps"])
-    inp = "{| i_steps := %s; i_b := %s; i_l := %s; i_r := %s |}" % (steps, cq_state(d["B"]), cq_state(d["L"]), cq_state(d["R"]))
+    sobs = cq_list("{| so_state := %s; so_count := %d; so_ix := %s |}" % (
+        cq_state(s["state"]), s["count"] if s["count"] == s["scan"] else 999999, cq_list(str(x) for x in s["ix"])) for s in d["steps"])
+    inp = "{| i_steps := %s; i_probes := %s; i_b := %s; i_l := %s; i_r := %s |}" % (
+        steps, cq_list(g.cq_cell(litval(pv)) for pv in PROBES), cq_state(d["B"]), cq_state(d["L"]), cq_state(d["R"]))
     return "(%s, {| o_steps := %s; o_lr := %s; o_rl := %s |})" % (inp, sobs, cq_mobs(d["m1"]), cq_mobs(d["m2"]))
 
 
@@ -281,6 +331,16 @@ def classify(case, out):
             t.append("delete-many")
         if s["stmt"][0] == "del" and s["ops"]:
             t.append("card-to-zero")
+        if s["stmt"][0] in ("dell", "updl") and case["index"]:
+            nd = {tuple(r): c for r, c in s["state"]}
+            for r, c in prev:
+                left = nd.get(tuple(r), 0)
+                if s["stmt"][0] == "dell" and c == 2 and left == 1:
+                    t.append("keyless-index-2to1-partial-delete")
+                if s["stmt"][0] == "updl" and s["stmt"][3] == 0 and s["stmt"][4] is None and c >= 2 and 0 < left < c and r[0] is not None:
+                    t.append("keyless-index-null-after-partial-update")
+        if s["stmt"][0] == "updl" and s["ops"]:
+            t.append("update-limit")
         if s["stmt"][0] == "dell" and s["ops"]:
             t.append("delete-limit")
             matching = sum(c for r, c in prev if r[s["stmt"][1]] == s["stmt"][2])
@@ -315,8 +375,6 @@ def shrink_candidates(case):
         for i in range(len(case[part])):
             c = copy.deepcopy(case)
             del c[part][i]
-            if part == "base":
-                del c["probes"][i]
             yield with_steps(c)
 
 
